@@ -478,6 +478,24 @@ func (w *Writer) ForceSeal() (uint64, error) {
 		return w.writer.indexStart, nil
 	}
 
+	// Save any state we may need to rollback, like Append does. Otherwise a
+	// failed write would leave us thinking we are sealed with an index that was
+	// never written.
+	sealed := false
+	beforeBuf := w.writer.commitBuf
+	beforeCRC := w.writer.crc
+	beforeWriteOffset := w.writer.writeOffset
+
+	defer func() {
+		if !sealed {
+			// rollback writer state on error
+			w.writer.commitBuf = beforeBuf
+			w.writer.crc = beforeCRC
+			w.writer.indexStart = 0
+			w.writer.writeOffset = beforeWriteOffset
+		}
+	}()
+
 	// Seal the segment! We seal it by writing an index frame before we commit.
 	if err := w.appendIndex(); err != nil {
 		return 0, err
@@ -488,6 +506,7 @@ func (w *Writer) ForceSeal() (uint64, error) {
 		return 0, err
 	}
 
+	sealed = true
 	return w.writer.indexStart, nil
 }
 
